@@ -9,7 +9,7 @@ CONSTANTS Mode, MaxOps
 VARIABLES built, evs, step, hist
 Z == [a |-> "", c |-> 0, kind |-> "", mid |-> 0, fs |-> 0, pts |-> <<>>, ipts |-> <<>>, rows |-> <<>>, res |-> "", g |-> <<2, -1>>,
       model |-> <<2, -1, 3>>, static |-> FALSE, rev |-> FALSE, order |-> "xt", it |-> 0, fids |-> <<>>, tgt |-> 0, norm |-> 2,
-      root |-> 1, full |-> FALSE, k |-> 0, gt |-> FALSE, bs |-> 0]
+      root |-> 1, full |-> FALSE, k |-> 0, gt |-> FALSE, bs |-> 0, red |-> "mean"]
 Ev(cid, it) == [Z EXCEPT !.a = "ev", !.c = cid, !.it = it]
 Fix(mid, k) == [Z EXCEPT !.a = "fix", !.mid = mid, !.k = k]
 Pidon(cid, mid, fs, pts, res, static, rev) ==
@@ -32,6 +32,9 @@ Three(c) == <<c, Ev(1, 0), Ev(1, 0), Ev(1, 1)>>
 Single ==
     {[fsets |-> Sets1, ops |-> Three(Pidon(1, 1, fs, pts, res, st, rev))] :
         fs \in 1..3, pts \in {<<1, 3, 2>>, <<4>>}, res \in {"u_f", "u_g", "echo", "vec", "dut"}, st \in BOOLEAN, rev \in BOOLEAN}
+    \* the general DeepONet condition with another reduction than the mean
+    \cup {[fsets |-> Sets1, ops |-> Three([Pidon(1, 1, fs, pts, res, st, FALSE) EXCEPT !.red = rd])] :
+        fs \in 1..3, pts \in {<<1, 3, 2>>, <<4>>}, res \in {"u_f", "vec"}, st \in BOOLEAN, rd \in {"sum", "max"}}
     \cup {[fsets |-> Sets1, ops |-> Three(DonData(1, 1, fids, pts, res, norm, root, full, tgt))] :
         fids \in {<<1, 2>>, <<3>>, <<2, 5, 4, 1>>}, pts \in {<<1, 3>>, <<4, 0, 2, 1>>}, res \in {"none", "ut1"}, norm \in 0..2, root \in 1..2,
         full \in BOOLEAN, tgt \in {1}}
